@@ -31,9 +31,10 @@ type PipeListener struct {
 	Servers    []*rt.Conn // server ends, in dial order
 	Transports []lime.Transport
 	Clients    []*rt.Conn
-	Base       []int64           // bytes the server end had read before it was queued (WebSocket: the opening handshake)
-	WSServers  []*websocket.Conn // server ends of the WebSocket connections, in DialWS order
+	Base       []int64                 // bytes the server end had read before it was queued (WebSocket: the opening handshake)
+	WSServers  []*websocket.Conn       // server ends of the WebSocket connections, in DialWS order
 	Accepted   map[lime.Transport]bool // transports the server took over through Accept
+	CloseErr   error                   // returned by Close (which closes all the same)
 }
 
 // WasAccepted tells whether the server end of connection i was handed to the server by Accept
@@ -65,7 +66,17 @@ func (l *PipeListener) Accept(ctx context.Context) (lime.Transport, error) {
 
 func (l *PipeListener) Close() error {
 	l.once.Do(func() { close(l.done) })
-	return nil
+	return l.CloseErr
+}
+
+// IsClosed tells whether Close was called.
+func (l *PipeListener) IsClosed() bool {
+	select {
+	case <-l.done:
+		return true
+	default:
+		return false
+	}
 }
 
 // Dial creates a fresh virtual connection, queues its server end for Accept
@@ -325,4 +336,11 @@ func IsTLSRecord(b []byte) bool {
 func Str(m map[string]interface{}, k string) string {
 	s, _ := m[k].(string)
 	return s
+}
+
+// TLSServerConfigByCallback is a server configuration that supplies its certificate only
+// through GetConfigForClient: no Certificates, no GetCertificate.
+func TLSServerConfigByCallback() *tls.Config {
+	return &tls.Config{MinVersion: tls.VersionTLS13, SessionTicketsDisabled: true, Time: fixedTime,
+		GetConfigForClient: func(*tls.ClientHelloInfo) (*tls.Config, error) { return TLSServerConfig(), nil }}
 }
